@@ -954,13 +954,18 @@ class Folder(object):
         if isinstance(st, ast.Assert):
             return
         if isinstance(st, ast.Global):
-            raise self.err('global statement in folded code', st, env.module)
+            for nm in st.names:
+                env.vars[('global', nm)] = True
+            return
         raise self.err('unsupported statement %s in folded code'
                        % type(st).__name__, st, env.module)
 
     def assign(self, t, v, env):
         if isinstance(t, ast.Name):
-            env.vars[t.id] = v
+            if env.lookup(('global', t.id))[0]:
+                self.globals_cache[(env.module.name, t.id)] = v
+            else:
+                env.vars[t.id] = v
         elif isinstance(t, (ast.Tuple, ast.List)):
             if isinstance(v, Opaque):
                 for e in t.elts:
